@@ -30,7 +30,7 @@ A_HIST = [
 PROPERTIES = {
     "C01": {"level": "exploration", "legs": [hist("C01"), e2e("c01-dhcp-e2e", "c01-e2e", "e2e_dhcp.py", ["--prop", "C01"])],
             "assumptions": A_HIST + [A_E2E]},
-    "C02": {"level": "exploration", "legs": [vh("c02-address-sets-inproc", "c02", "c02")],
+    "C02": {"level": "exploration", "legs": [vh("c02-address-sets-inproc", "c02", "c02"), hist("C02")],
             "assumptions": ["the documented address set D is computed by model/policy.rs, written from erbium.conf(5)",
                             "pools larger than 64 addresses are judged by size and boundary membership, not drained"]},
     "C03": {"level": "exploration", "legs": [vh("c03-reply-construction-inproc", "c03", "c03"),
